@@ -82,7 +82,8 @@ def choose_items(prop, tier, seed, n, select=None, mode_fraction=0.0, delay=Fals
                 it["delay"] = {"salt": f"{seed}-{i}", "max_ms": 2.0, "p": 0.3}
             out.append(it)
         elif prior_fraction and rng.random() < prior_fraction:
-            out.append({"i": i, "prior": rng.choice([1, 1, 2]), "reconf": rng.random() < 0.4})   # instance already used
+            out.append({"i": i, "prior": rng.choice([1, 1, 2]), "reconf": rng.random() < 0.4,
+                        "prior_abort": rng.random() < 0.3})   # instance already used (30 %: the earlier run was aborted mid-way)
         else:
             out.append(i)
     for p in pinned_probes(prop):
